@@ -124,7 +124,8 @@ pub fn rand_cfg(rng: &mut Rng, p: &Profile) -> DeployCfg {
             toll,
             spread,
             fluct,
-            funding_period: *rng.pick(&[3600u64, 86400]),
+            // mostly the fixtures' hourly / daily periods, but also periods that are not a whole number of hours
+            funding_period: *rng.pick(&[3600u64, 86400, 3600, 86400, 1800, 5400, 2700]),
             decimals: None,
             live: true,
             unwired: false,
